@@ -129,6 +129,17 @@ Section World.
   Fixpoint ver_max (l : list ver) : ver :=
     match l with [] => V20 | V21 :: _ => V21 | V20 :: r => ver_max r end.
 
+  (* max("2.1", max(detect_spec_version(obj) for obj in objects)) given the detector `g` for one member *)
+  Fixpoint detect_members (g : list (ustring * jvalue) -> result (option ver)) (nonempty : bool) (l : list jvalue)
+    : result (option ver) :=
+    match l with
+    | [] => if nonempty then Ok (Some V21)
+            else if vr_detect_default vr then Ok (Some V21) else Err EValueError
+    | JObj o :: r => do mv <- g o;
+                     match mv with Some _ => detect_members g nonempty r | None => Unmodelled end   (* max() over arbitrary values *)
+    | _ :: _ => Err ETypeError
+    end.
+
   Fixpoint detect_version (fuel : nat) (d : list (ustring * jvalue)) : result (option ver) :=
     match fuel with
     | O => Err EOutOfFuel
@@ -151,16 +162,7 @@ Section World.
             match alookup (u "objects") d with
             | None => if vr_detect_default vr then Ok (Some V21) else Err EKeyError
             | Some (JArr objs) =>
-              (fix go (l : list jvalue) : result (option ver) :=
-                 match l with
-                 | [] => match objs with
-                         | [] => if vr_detect_default vr then Ok (Some V21) else Err EValueError
-                         | _ => Ok (Some V21)
-                         end   (* max("2.1", max(...)) *)
-                 | JObj o :: r => do mv <- detect_version f o;
-                                  match mv with Some _ => go r | None => Unmodelled end   (* max() over arbitrary values *)
-                 | _ :: _ => Err ETypeError
-                 end) objs
+              detect_members (detect_version f) (match objs with [] => false | _ => true end) objs
             | Some _ => Unmodelled
             end
           else match ty with
@@ -182,20 +184,18 @@ Section World.
   Definition clean_string (v : jvalue) : result (pval * bool) :=
     do s <- py_str v; Ok (PJ (JStr s), false).
 
-  Definition clean_dict_keys (vv : ver) (d : list (ustring * jvalue)) : result unit :=
-    (fix go (l : list (ustring * jvalue)) : result unit :=
-       match l with
-       | [] => Ok tt
-       | (k, _) :: r =>
-         let n := List.length k in
-         let len_ok := match vv with
-                       | V20 => Nat.leb 3 n && Nat.leb n 256
-                       | V21 => Nat.leb n 250
-                       end in
-         if negb len_ok then Err EDictionaryKey
-         else if negb (re_dict_key (vr_key_z vr) k) then Err EDictionaryKey
-         else go r
-       end) d.
+  Definition dict_key_ok (vv : ver) (k : ustring) : bool :=
+    let n := List.length k in
+    (match vv with
+     | V20 => Nat.leb 3 n && Nat.leb n 256
+     | V21 => Nat.leb n 250
+     end) && re_dict_key (vr_key_z vr) k.
+
+  Fixpoint clean_dict_keys (vv : ver) (d : list (ustring * jvalue)) : result unit :=
+    match d with
+    | [] => Ok tt
+    | (k, _) :: r => if dict_key_ok vv k then clean_dict_keys vv r else Err EDictionaryKey
+    end.
 
   (* _get_dict on JSON kinds: a dict is itself; a string is json-decoded (Unmodelled);
      a list goes through dict(list) (Unmodelled unless it cannot matter); scalars fail *)
@@ -212,28 +212,33 @@ Section World.
     do _ <- clean_dict_keys vv d;
     match d with [] => Err EValueError | _ => Ok d end.
 
+  (* the spec name for an algorithm: the last spec name that infers to it *)
+  Definition hash_spec_name (names : list ustring) (alg : ustring) : option ustring :=
+    find (fun n => match infer_hash n with Some a => ustr_eqb a alg | None => false end) (rev names).
+
+  Fixpoint hashes_loop (names : list ustring) (allow : bool) (l : list (ustring * jvalue))
+           (acc : list (ustring * pval)) (hc : bool) : result (pval * bool) :=
+    match l with
+    | [] => Ok (PMap acc, hc)
+    | (k, hv) :: r =>
+      match infer_hash k with
+      | Some alg =>
+        match hv with
+        | JStr s =>
+          if negb (check_hash (vr_hash_z vr) alg s) then Err EValueError else
+          let '(name, hc') := match hash_spec_name names alg with Some n => (n, hc) | None => (k, true) end in
+          if negb allow && hc' then Err ECustomContent else hashes_loop names allow r (aset name (PJ hv) acc) hc'
+        | _ => Err ETypeError       (* regex.match on a non-string *)
+        end
+      | None =>
+        let hc' := hc || negb (mem_ustr k names) in
+        if negb allow && hc' then Err ECustomContent else hashes_loop names allow r (aset k (PJ hv) acc) hc'
+      end
+    end.
+
   Definition clean_hashes (names : list ustring) (vv : ver) (allow : bool) (v : jvalue) : result (pval * bool) :=
     do d <- clean_dictionary vv v;
-    (fix go (l : list (ustring * jvalue)) (acc : list (ustring * pval)) (hc : bool) : result (pval * bool) :=
-       match l with
-       | [] => Ok (PMap acc, hc)
-       | (k, hv) :: r =>
-         match infer_hash k with
-         | Some alg =>
-           match hv with
-           | JStr s =>
-             if negb (check_hash (vr_hash_z vr) alg s) then Err EValueError else
-             (* the spec name for this algorithm: the first spec name that infers to it *)
-             let spec := find (fun n => match infer_hash n with Some a => ustr_eqb a alg | None => false end) (rev names) in
-             let '(name, hc') := match spec with Some n => (n, hc) | None => (k, true) end in
-             if negb allow && hc' then Err ECustomContent else go r (aset name (PJ hv) acc) hc'
-           | _ => Err ETypeError       (* regex.match on a non-string *)
-           end
-         | None =>
-           let hc' := hc || negb (mem_ustr k names) in
-           if negb allow && hc' then Err ECustomContent else go r (aset k (PJ hv) acc) hc'
-         end
-       end) d [] false.
+    hashes_loop names allow d [] false.
 
   Definition clean_reference (white : bool) (generics specifics : list ustring) (vv : ver)
              (allow interop : bool) (v : jvalue) : result (pval * bool) :=
@@ -301,6 +306,90 @@ Section World.
     else if amem (u "interoperability") d || amem (u "self") d then Unmodelled
     else Ok tt.
 
+  (* ListProperty: what iter(value) yields on JSON kinds *)
+  Definition list_items (v : jvalue) : result (list jvalue) :=
+    match v with
+    | JArr l => Ok l
+    | JStr _ => Ok [v]
+    | JObj m => Ok (map (fun kv => JStr (fst kv)) m)
+    | _ => Err EValueError
+    end.
+
+  (* the items of a list cleaned by the contained property *)
+  Fixpoint clean_items (f : jvalue -> result (pval * bool)) (l : list jvalue) : result (list pval * bool) :=
+    match l with
+    | [] => Ok ([], false)
+    | x :: r =>
+      do cx <- f x;
+      do rest <- clean_items f r;
+      Ok (fst cx :: fst rest, snd cx || snd rest)
+    end.
+
+  (* the items of a list of embedded objects *)
+  Fixpoint listof_items (cid : ustring) (allow interop : bool) (l : list jvalue) : result (list pval * bool) :=
+    match l with
+    | [] => Ok ([], false)
+    | JObj d :: r =>
+      do _ <- reserved_kw d;
+      do o <- rec_construct cid allow interop d;
+      do rest <- listof_items cid allow interop r;
+      Ok (o :: fst rest, pval_has_custom o || snd rest)
+    | _ :: _ => Err EValueError
+    end.
+
+  Definition finish_list (allow : bool) (r : list pval * bool) : result (pval * bool) :=
+    let '(res, hc) := r in
+    if negb allow && hc then Err ECustomContent
+    else match res with [] => Err EValueError | _ => Ok (PArr res, hc) end.
+
+  (* ObservableProperty: valid_refs = {k: v['type']}: a member that is not a dict, or has no type, fails first *)
+  Fixpoint obs_refs (l : list (ustring * jvalue)) : result (list (ustring * ustring)) :=
+    match l with
+    | [] => Ok []
+    | (key, JObj o) :: r =>
+      match alookup (u "type") o with
+      | Some (JStr t) => do rest <- obs_refs r; Ok ((key, t) :: rest)
+      | Some _ => Unmodelled
+      | None => Err EKeyError
+      end
+    | (_, _) :: _ => Err ETypeError
+    end.
+
+  Fixpoint obs_loop (vv : ver) (refs : list (ustring * ustring)) (allow : bool) (l : list (ustring * jvalue))
+           (acc : list (ustring * pval)) (hc : bool) : result (pval * bool) :=
+    match l with
+    | [] => Ok (PMap acc, hc)
+    | (key, JObj o) :: r =>
+      do p <- rec_parse_obs vv refs allow o;
+      let hc' := hc || match p with PObject _ _ _ h => h | _ => true end in
+      if negb allow && hc' then Err ECustomContent else obs_loop vv refs allow r (acc ++ [(key, p)]) hc'
+    | _ => Err ETypeError
+    end.
+
+  Fixpoint ext_loop (vv : ver) (allow interop : bool) (l : list (ustring * jvalue))
+           (acc : list (ustring * pval)) (hc : bool) : result (pval * bool) :=
+    match l with
+    | [] => Ok (PMap acc, hc)
+    | (key, sub) :: r =>
+      match class_for key vv 2%N with
+      | Some cid =>
+        match sub with
+        | JObj sd =>
+          do _ <- reserved_kw sd;
+          do e <- rec_construct cid allow interop sd;
+          let hc' := hc || pval_has_custom e in
+          if negb allow && hc' then Err ECustomContent else ext_loop vv allow interop r (acc ++ [(key, e)]) hc'
+        | _ => Err ETypeError
+        end
+      | None =>
+        if ustr_prefix (u "extension-definition--") key then
+          do _ <- validate_id vr key vv (Some (u "extension-definition--")) false;
+          ext_loop vv allow interop r (acc ++ [(key, PJ sub)]) hc
+        else if allow then ext_loop vv allow interop r (acc ++ [(key, PJ sub)]) true
+        else Err ECustomContent
+      end
+    end.
+
   Fixpoint clean_kind (k : pkind) (allow interop : bool) (v : jvalue) {struct k} : result (pval * bool) :=
     match k with
     | KString | KPattern | KObjRef _ => clean_string v
@@ -364,54 +453,11 @@ Section World.
       do d <- get_dict v;
       match d with
       | [] => Err EValueError
-      | _ =>
-        (* valid_refs = {k: v['type']}: a member that is not a dict, or has no type, fails first *)
-        do refs <- (fix go (l : list (ustring * jvalue)) : result (list (ustring * ustring)) :=
-                      match l with
-                      | [] => Ok []
-                      | (key, JObj o) :: r =>
-                        match alookup (u "type") o with
-                        | Some (JStr t) => do rest <- go r; Ok ((key, t) :: rest)
-                        | Some _ => Unmodelled
-                        | None => Err EKeyError
-                        end
-                      | (_, JStr _) :: _ => Err ETypeError
-                      | (_, _) :: _ => Err ETypeError
-                      end) d;
-        (fix go (l : list (ustring * jvalue)) (acc : list (ustring * pval)) (hc : bool) : result (pval * bool) :=
-           match l with
-           | [] => Ok (PMap acc, hc)
-           | (key, JObj o) :: r =>
-             do p <- rec_parse_obs vv refs allow o;
-             let hc' := hc || match p with PObject _ _ _ h => h | _ => true end in
-             if negb allow && hc' then Err ECustomContent else go r (acc ++ [(key, p)]) hc'
-           | _ => Err ETypeError
-           end) d [] false
+      | _ => do refs <- obs_refs d; obs_loop vv refs allow d [] false
       end
     | KExtensions vv =>
       do d <- get_dict v;
-      (fix go (l : list (ustring * jvalue)) (acc : list (ustring * pval)) (hc : bool) : result (pval * bool) :=
-         match l with
-         | [] => Ok (PMap acc, hc)
-         | (key, sub) :: r =>
-           match class_for key vv 2%N with
-           | Some cid =>
-             match sub with
-             | JObj sd =>
-               do _ <- reserved_kw sd;
-               do e <- rec_construct cid allow interop sd;
-               let hc' := hc || pval_has_custom e in
-               if negb allow && hc' then Err ECustomContent else go r (acc ++ [(key, e)]) hc'
-             | _ => Err ETypeError
-             end
-           | None =>
-             if ustr_prefix (u "extension-definition--") key then
-               do _ <- validate_id vr key vv (Some (u "extension-definition--")) false;
-               go r (acc ++ [(key, PJ sub)]) hc
-             else if allow then go r (acc ++ [(key, PJ sub)]) true
-             else Err ECustomContent
-           end
-         end) d [] false
+      ext_loop vv allow interop d [] false
     | KStixObject vv =>
       do d <- get_dict v;
       match d with
@@ -430,47 +476,13 @@ Section World.
          reaches it only if the class __init__ did not wrap it (handled in construct) *)
       Err EValueError
     | KList k' =>
-      let items : result (list jvalue) :=
-          match v with
-          | JArr l => Ok l
-          | JStr _ => Ok [v]
-          | JObj m => Ok (map (fun kv => JStr (fst kv)) m)
-          | _ => Err EValueError
-          end in
-      do l <- items;
-      do r <- (fix go (l : list jvalue) : result (list pval * bool) :=
-                 match l with
-                 | [] => Ok ([], false)
-                 | x :: r =>
-                   do cx <- clean_kind k' allow interop x;
-                   do rest <- go r;
-                   Ok (fst cx :: fst rest, snd cx || snd rest)
-                 end) l;
-      let '(res, hc) := r in
-      if negb allow && hc then Err ECustomContent
-      else match res with [] => Err EValueError | _ => Ok (PArr res, hc) end
+      do l <- list_items v;
+      do r <- clean_items (clean_kind k' allow interop) l;
+      finish_list allow r
     | KListOf cid =>
-      let items : result (list jvalue) :=
-          match v with
-          | JArr l => Ok l
-          | JStr _ => Ok [v]
-          | JObj m => Ok (map (fun kv => JStr (fst kv)) m)
-          | _ => Err EValueError
-          end in
-      do l <- items;
-      do r <- (fix go (l : list jvalue) : result (list pval * bool) :=
-                 match l with
-                 | [] => Ok ([], false)
-                 | JObj d :: r =>
-                   do _ <- reserved_kw d;
-                   do o <- rec_construct cid allow interop d;
-                   do rest <- go r;
-                   Ok (o :: fst rest, pval_has_custom o || snd rest)
-                 | _ :: _ => Err EValueError
-                 end) l;
-      let '(res, hc) := r in
-      if negb allow && hc then Err ECustomContent
-      else match res with [] => Err EValueError | _ => Ok (PArr res, hc) end
+      do l <- list_items v;
+      do r <- listof_items cid allow interop l;
+      finish_list allow r
     | KAny => Ok (PJ v, false)
     end.
 
@@ -557,6 +569,10 @@ Section World.
     | _ => Ok tt
     end.
 
+  (* every constraint of a list, in order, stopping at the first that raises *)
+  Fixpoint constr_all (g : constr -> result unit) (l : list constr) : result unit :=
+    match l with [] => Ok tt | x :: r => do _ <- g x; constr_all g r end.
+
   Fixpoint eval_constr (fuel : nat) (c : cls) (inner : list (ustring * pval)) (k : constr) : result unit :=
     match fuel with
     | O => Err EOutOfFuel
@@ -571,9 +587,7 @@ Section World.
       | CRaiseIf q e => do b <- eval_ccond q inner; if b then Err e else Ok tt
       | CWhen q body =>
         do b <- eval_ccond q inner;
-        if b then (fix go (l : list constr) : result unit :=
-                     match l with [] => Ok tt | x :: r => do _ <- eval_constr f c inner x; go r end) body
-        else Ok tt
+        if b then constr_all (eval_constr f c inner) body else Ok tt
       | CTlp _ => check_tlp inner
       | CPatternValidator vv =>
         (* v20: always; v21: only when pattern_type == 'stix', with pattern_version *)
@@ -709,6 +723,77 @@ Section World.
     | _ => if vr_ext_scan_guard vr then Ok false else Err EAttributeError
     end.
 
+  (* the scan of `extensions` at the top of __init__: is there an unregistered toplevel-property-extension *)
+  Fixpoint ext_scan (l : list (ustring * jvalue)) : result bool :=
+    match l with
+    | [] => Ok false
+    | (eid, e) :: r =>
+      do t <- ext_is_toplevel e;
+      if t then
+        match class_for eid V21 2%N with
+        | Some _ => if vr_ext_scan_guard vr then ext_scan r
+                    else Err EAttributeError     (* built-in extension classes have no _toplevel_properties *)
+        | None => do _ <- ext_scan r; Ok true
+        end
+      else ext_scan r
+    end.
+
+  (* the value assigned to a property name: keyword arguments first, then custom_properties; None and [] count as absent *)
+  Definition assign_raw (kwargs custom_props : list (ustring * jvalue)) (pre : list (ustring * pval))
+             (n : ustring) (setting : list (ustring * pval)) : list (ustring * pval) :=
+    match alookup n pre with
+    | Some v => aset n v setting
+    | None =>
+      match (match alookup n kwargs with Some v => Some v | None => alookup n custom_props end) with
+      | Some JNull => setting
+      | Some (JArr []) => setting
+      | Some v => aset n (PJ v) setting
+      | None => setting
+      end
+    end.
+
+  (* the loop over property_order *)
+  Fixpoint assign_loop (c : cls) (allow interop : bool) (valid_refs : option (list (ustring * ustring)))
+           (kwargs custom_props : list (ustring * jvalue)) (pre : list (ustring * pval))
+           (l : list ustring) (setting : list (ustring * pval)) (hc : bool)
+    : result (list (ustring * pval) * bool) :=
+    match l with
+    | [] => Ok (setting, hc)
+    | n :: rest =>
+      let setting1 := assign_raw kwargs custom_props pre n setting in
+      match slot_of c n with
+      | Some s =>
+        do r <- check_property c s allow interop valid_refs setting1;
+        assign_loop c allow interop valid_refs kwargs custom_props pre rest (fst r) (hc || snd r)
+      | None => assign_loop c allow interop valid_refs kwargs custom_props pre rest setting1 hc
+      end
+    end.
+
+  (* base _check_object_constraints: the selectors of every granular marking address something *)
+  Fixpoint granular_check (setting : list (ustring * pval)) (l : list pval) : result unit :=
+    match l with
+    | [] => Ok tt
+    | PObject _ ginner _ _ :: r =>
+      match alookup (u "selectors") ginner with
+      | Some sels => do ok <- selectors_ok setting sels;
+                     if ok then granular_check setting r else Err EInvalidSelector
+      | None => Unmodelled
+      end
+    | _ :: _ => Unmodelled
+    end.
+
+  Definition defaulted_names (c : cls) (setting : list (ustring * pval)) : list ustring :=
+    map sname (filter (fun s =>
+      negb (sreq s) &&
+      match sdef s with
+      | DConst j => match alookup (sname s) setting with
+                    | Some (PJ j') => jvalue_eqb j j'
+                    | Some (PArr l) => jvalue_eqb j (encode true (PArr l))
+                    | _ => false
+                    end
+      | _ => false
+      end) (cslots c)).
+
   Definition construct_generic (fuel : nat) (c : cls) (allow0 interop : bool) (kwargs0 : list (ustring * jvalue))
              (pre : list (ustring * pval))         (* values already wrapped by the class __init__ *)
              (valid_refs : option (list (ustring * ustring))) : result pval :=
@@ -729,20 +814,7 @@ Section World.
        | Some ev =>
          if negb (truthy ev) then Ok false else
          match ev with
-         | JObj exts =>
-           (fix go (l : list (ustring * jvalue)) : result bool :=
-              match l with
-              | [] => Ok false
-              | (eid, e) :: r =>
-                do t <- ext_is_toplevel e;
-                if t then
-                  match class_for eid V21 2%N with
-                  | Some _ => if vr_ext_scan_guard vr then go r
-                              else Err EAttributeError     (* built-in extension classes have no _toplevel_properties *)
-                  | None => do _ <- go r; Ok true
-                  end
-                else go r
-              end) exts
+         | JObj exts => ext_scan exts
          | _ => if vr_ext_scan_guard vr then Ok false else Err EAttributeError
          end
        end;
@@ -757,70 +829,47 @@ Section World.
       if (match cver c with V21 => negb (forallb re_prefix21 all_custom) | V20 => false end) then Err EInvalidValue else
       let toplevel_ext := if has_unreg_toplevel then usort extra else [] in   (* a Python set: order canonicalised *)
       let order := prop_names ++ toplevel_ext ++ usort all_custom in
-      let assigned (n : ustring) : option jvalue :=
-          match alookup n kwargs with Some v => Some v | None => alookup n custom_props end in
-      do r <- (fix go (l : list ustring) (setting : list (ustring * pval)) (hc : bool)
-               : result (list (ustring * pval) * bool) :=
-                 match l with
-                 | [] => Ok (setting, hc)
-                 | n :: rest =>
-                   let setting1 :=
-                       match alookup n pre with
-                       | Some v => aset n v setting
-                       | None =>
-                         match assigned n with
-                         | Some JNull => setting
-                         | Some (JArr []) => setting
-                         | Some v => aset n (PJ v) setting
-                         | None => setting
-                         end
-                       end in
-                   match slot_of c n with
-                   | Some s =>
-                     do r <- check_property c s allow interop valid_refs setting1;
-                     go rest (fst r) (hc || snd r)
-                   | None => go rest setting1 hc
-                   end
-                 end) order [] (match all_custom with [] => false | _ => true end);
+      do r <- assign_loop c allow interop valid_refs kwargs custom_props pre order []
+                          (match all_custom with [] => false | _ => true end);
       let '(setting, hc) := r in
       if existsb (fun s => sreq s && negb (amem (sname s) setting)) (cslots c) then Err EMissing else
-      let defaulted :=
-          map sname (filter (fun s =>
-            negb (sreq s) &&
-            match sdef s with
-            | DConst j => match alookup (sname s) setting with
-                          | Some (PJ j') => jvalue_eqb j j'
-                          | Some (PArr l) => jvalue_eqb j (encode true (PArr l))
-                          | _ => false
-                          end
-            | _ => false
-            end) (cslots c)) in
+      let defaulted := defaulted_names c setting in
       (* base _check_object_constraints: granular marking selectors *)
       do _ <- match (if existsb (fun k => match k with CSkipBaseCheck => true | _ => false end) (ccons c)
                       then None else alookup (u "granular_markings") setting) with
-              | Some (PArr gms) =>
-                (fix go (l : list pval) : result unit :=
-                   match l with
-                   | [] => Ok tt
-                   | PObject _ ginner _ _ :: r =>
-                     match alookup (u "selectors") ginner with
-                     | Some sels => do ok <- selectors_ok setting sels;
-                                    if ok then go r else Err EInvalidSelector
-                     | None => Unmodelled
-                     end
-                   | _ :: _ => Unmodelled
-                   end) gms
+              | Some (PArr gms) => granular_check setting gms
               | Some _ => Unmodelled
               | None => Ok tt
               end;
-      do _ <- (fix go (l : list constr) : result unit :=
-                 match l with [] => Ok tt | k :: r => do _ <- eval_constr fuel c setting k; go r end)
-              ((match cfamily c with FExt => [CAtLeastOneDefault] | _ => [] end) ++ ccons c);
+      do _ <- constr_all (eval_constr fuel c setting)
+                         ((match cfamily c with FExt => [CAtLeastOneDefault] | _ => [] end) ++ ccons c);
       (* `allow_custom` was rebound to True by the custom_properties loophole *)
       if allow then Ok (PObject (cid c) setting defaulted hc)
       else if hc then Err ESTIXError else Ok (PObject (cid c) setting defaulted false)
     end.
 End World.
+
+(* dict_to_stix2, unregistered type under allow_custom=False: an extension-definition entry that is not a
+   property extension lets the dictionary through *)
+Fixpoint d2s_ext_scan (guard : bool) (d : list (ustring * jvalue)) (l : list (ustring * jvalue)) : result pval :=
+  match l with
+  | [] => Err EParse
+  | (k, JObj e) :: rest =>
+    if ustr_prefix (u "extension-definition--") k then
+      match alookup (u "extension_type") e with
+      | None => Ok (PJ (JObj d))
+      | Some (JStr et) =>
+        match ufind (u "property-extension") et O with
+        | Some _ => d2s_ext_scan guard d rest
+        | None => Ok (PJ (JObj d))
+        end
+      | Some _ => Err ETypeError
+      end
+    else d2s_ext_scan guard d rest
+  | (k, _) :: rest =>
+    if ustr_prefix (u "extension-definition--") k && negb guard then Err EAttributeError
+    else d2s_ext_scan guard d rest
+  end.
 
 (* ------------------------------------------------------------- the knot *)
 Inductive request :=
@@ -953,26 +1002,7 @@ Section Knot.
               if allow then Ok (PJ (JObj d)) else
               match alookup (u "extensions") d with
               | None => Err EParse
-              | Some (JObj exts) =>
-                (fix go (l : list (ustring * jvalue)) : result pval :=
-                   match l with
-                   | [] => Err EParse
-                   | (k, JObj e) :: rest =>
-                     if ustr_prefix (u "extension-definition--") k then
-                       match alookup (u "extension_type") e with
-                       | None => Ok (PJ (JObj d))
-                       | Some (JStr et) =>
-                         match ufind (u "property-extension") et O with
-                         | Some _ => go rest
-                         | None => Ok (PJ (JObj d))
-                         end
-                       | Some _ => Err ETypeError
-                       end
-                     else go rest
-                   | (k, _) :: rest =>
-                     if ustr_prefix (u "extension-definition--") k && negb (vr_d2s_ext_guard vr) then Err EAttributeError
-                     else go rest
-                   end) exts
+              | Some (JObj exts) => d2s_ext_scan (vr_d2s_ext_guard vr) d exts
               | Some _ => if vr_d2s_ext_guard vr then Err EParse else Err EAttributeError
               end
             end
